@@ -34,12 +34,13 @@ CurrentWinnerFor(q) ==
 DsEnabled(n) ==
     /\ winner[commits[n].baseEpoch] = 0
     /\ IF commits[n].baseEpoch = 0 THEN TRUE ELSE winner[commits[n].baseEpoch - 1] = commits[n].baseKs
-    /\ grp[commits[n].by].st = "member" /\ grp[commits[n].by].pend = n
+    /\ grp[commits[n].by].st = "member" /\ (grp[commits[n].by].pend = n \/ n \in det[commits[n].by])
 
 \* enabled progress steps (guards only: cheap), one of which is drawn at random
 ProgChoices ==
     {[t |-> "ds", p |-> "", n |-> n] : n \in {n \in 1..Len(commits) : DsEnabled(n)}}
     \cup {[t |-> "apply", p |-> p, n |-> 0] : p \in {p \in Parties : HasGroup(p) /\ grp[p].pend # 0 /\ IsWinner(grp[p].pend)}}
+    \cup UNION {{[t |-> "applydet", p |-> p, n |-> n] : n \in {n \in det[p] : IsWinner(n) /\ commits[n].baseKs = grp[p].ks}} : p \in {p \in Parties : HasGroup(p)}}
     \cup UNION {{[t |-> "deliver", p |-> q, n |-> n] : n \in {n \in CurrentWinnerFor(q) : commits[n].by # q /\ n \notin grp[q].seenC}} :
                  q \in {q \in Parties : HasGroup(q)}}
     \cup {[t |-> "retire", p |-> q, n |-> 0] : q \in {q \in Parties : HasGroup(q) /\ \E n \in CurrentWinnerFor(q) : grp[q].leaf \in commits[n].removed}}
@@ -55,6 +56,7 @@ Progress ==
     \E c \in {RandomElement(ProgChoices)} :
         CASE c.t = "ds" -> DsChoose(c.n)
           [] c.t = "apply" -> ApplyPending(c.p)
+          [] c.t = "applydet" -> ApplyDetached(c.p, c.n)
           [] c.t = "deliver" -> DeliverCommit(c.p, c.n)
           [] c.t = "retire" -> Retire(c.p)
           [] c.t = "join" -> JoinWelcome(c.p, c.n)
